@@ -188,7 +188,7 @@ Hypothesis Hmax : max_metadata_size cfg < 4294967296.
 Hypothesis H_moov : forall p, blen p < 4294967296 ->
   is_ok (moov_check p) = match co_regions p with Some _ => true | None => false end.
 Hypothesis H_put : forall p kids, moov_check p = Ok kids -> put_nodes kids = p.
-Hypothesis H_shift : forall p kids ts d, moov_check p = Ok kids -> co_tables p = Some ts -> (- 2 ^ 31 < d < 2 ^ 31)%Z ->
+Hypothesis H_shift : forall p kids ts d, moov_check p = Ok kids -> co_tables p = Some ts -> (- 2 ^ 31 <= d < 2 ^ 31)%Z ->
   is_ok (each_trak kids (shift_table (shift_entry 32 d) (shift_entry 64 d))) =
   negb (existsb (fun t : N * list N => existsb (fun e => match shift (fst t) d e with None => true | Some _ => false end) (snd t)) ts).
 
@@ -332,7 +332,7 @@ Definition plan_calc (fp mp : bytes) (m_off d_off : N) : plan :=
   if m_off <? d_off then NoRewrite else
   let ml := metadata_len fp mp in
   if d_off =? ml then Pad 0
-  else if (ml + 8 <=? d_off) && (d_off - ml <=? 4294967295 - 8) then Pad (d_off - ml)
+  else if (ml + 8 <=? d_off) && (d_off - ml <=? 4294967295 - 8) && (d_off - ml <=? ml) then Pad (d_off - ml)
   else let delta := (Z.of_N ml - Z.of_N d_off)%Z in
        if (- 2 ^ 31 <=? delta)%Z && (delta <? 2 ^ 31)%Z then Shift delta else Refuse.
 
@@ -341,7 +341,7 @@ Lemma plan_of_calc inp bs f m d : the_ftyp bs = Some f -> last_moov bs = Some m 
 Proof.
   intros Hf Hm Hd. unfold plan_of, plan_calc. rewrite Hf, Hm, Hd.
   destruct (tb_off m <? tb_off d); [reflexivity|]. cbv zeta.
-  destruct (tb_off d =? _); [reflexivity|]. destruct (_ && _); [reflexivity|]. destruct (_ && _); reflexivity.
+  destruct (tb_off d =? _); [reflexivity|]. destruct (_ && _ && _); [reflexivity|]. destruct (_ && _); reflexivity.
 Qed.
 
 Definition table_overflow (d : Z) (ts : list (N * list N)) : bool :=
@@ -349,7 +349,7 @@ Definition table_overflow (d : Z) (ts : list (N * list N)) : bool :=
 
 Section Finish.
 Hypothesis H_put : forall p kids, moov_check p = Ok kids -> put_nodes kids = p.
-Hypothesis H_shift : forall p kids ts d, moov_check p = Ok kids -> co_tables p = Some ts -> (- 2 ^ 31 < d < 2 ^ 31)%Z ->
+Hypothesis H_shift : forall p kids ts d, moov_check p = Ok kids -> co_tables p = Some ts -> (- 2 ^ 31 <= d < 2 ^ 31)%Z ->
   is_ok (each_trak kids (shift_table (shift_entry 32 d) (shift_entry 64 d))) = negb (table_overflow d ts).
 
 Lemma with_data_size_small t n : n <= U32MAX ->
@@ -398,35 +398,29 @@ Proof.
     split; [reflexivity|]. intros o H. injection H as <-. cbn [o_metadata]. split; discriminate. }
   replace ((ml <=? d_off) && (d_off - ml =? 0)) with false.
   2:{ symmetry. apply andb_false_iff. destruct (N.leb_spec ml d_off); [right; apply N.eqb_neq; lia | left; reflexivity]. }
-  replace ((ml <=? d_off) && (8 <=? d_off - ml) && (d_off - ml <=? 4294967287))
-    with ((ml + 8 <=? d_off) && (d_off - ml <=? 4294967295 - 8)).
+  replace ((ml <=? d_off) && (8 <=? d_off - ml) && (d_off - ml <=? 4294967287) && (d_off - ml <=? ml))
+    with ((ml + 8 <=? d_off) && (d_off - ml <=? 4294967295 - 8) && (d_off - ml <=? ml)).
   2:{ change (4294967295 - 8) with 4294967287.
       destruct (N.leb_spec (ml + 8) d_off); destruct (N.leb_spec ml d_off); destruct (N.leb_spec 8 (d_off - ml));
         cbn [andb]; try reflexivity; lia. }
-  destruct ((ml + 8 <=? d_off) && (d_off - ml <=? 4294967295 - 8)) eqn:Epad.
+  destruct ((ml + 8 <=? d_off) && (d_off - ml <=? 4294967295 - 8) && (d_off - ml <=? ml)) eqn:Epad.
   { split; [reflexivity|]. intros o H. injection H as <-. cbn [o_metadata]. split; discriminate. }
   (* displacement *)
-  change (4294967295 - 8) with 4294967287 in Epad.
   assert (Hdisp : displacement d_off ml =
             (if (- 2 ^ 31 <=? Z.of_N ml - Z.of_N d_off)%Z && (Z.of_N ml - Z.of_N d_off <? 2 ^ 31)%Z
              then Some (Z.of_N ml - Z.of_N d_off)%Z else None)).
-  { unfold displacement, I32MAX. change (2 ^ 31)%Z with 2147483648%Z.
-    apply andb_false_iff in Epad.
+  { unfold displacement, I32MAX. change (2 ^ 31)%Z with 2147483648%Z. change (2147483647 + 1) with 2147483648.
     destruct (Z.leb_spec (Z.opp 2147483648) (Z.of_N ml - Z.of_N d_off)) as [Z1|Z1];
     destruct (Z.ltb_spec (Z.of_N ml - Z.of_N d_off) 2147483648) as [Z2|Z2]; cbn [andb];
     (destruct (N.leb_spec ml d_off) as [Hle|Hgt];
-     [destruct (N.leb_spec (d_off - ml) 2147483647) | destruct (N.leb_spec (ml - d_off) 2147483647)]);
-    try (apply f_equal; lia); try reflexivity;
-    exfalso; destruct Epad as [Ep|Ep]; apply N.leb_gt in Ep; lia. }
+     [destruct (N.leb_spec (d_off - ml) 2147483648) | destruct (N.leb_spec (ml - d_off) 2147483647)]);
+    try (apply f_equal; lia); try reflexivity; exfalso; lia. }
   rewrite Hdisp.
   destruct ((- 2 ^ 31 <=? Z.of_N ml - Z.of_N d_off)%Z && (Z.of_N ml - Z.of_N d_off <? 2 ^ 31)%Z) eqn:Er.
   2:{ split; [reflexivity | discriminate]. }
   set (dl := (Z.of_N ml - Z.of_N d_off)%Z) in *.
-  assert (Hrange : (- 2 ^ 31 < dl < 2 ^ 31)%Z).
-  { apply andb_prop in Er. destruct Er as [E1 E2]. apply Z.leb_le in E1. apply Z.ltb_lt in E2.
-    split; [|exact E2]. assert (dl <> (- 2 ^ 31)%Z); [|lia].
-    intros Eq. apply andb_false_iff in Epad. change (2 ^ 31)%Z with 2147483648%Z in *.
-    destruct Epad as [Ep|Ep]; apply N.leb_gt in Ep; unfold dl in *; lia. }
+  assert (Hrange : (- 2 ^ 31 <= dl < 2 ^ 31)%Z).
+  { apply andb_prop in Er. destruct Er as [E1 E2]. apply Z.leb_le in E1. apply Z.ltb_lt in E2. split; assumption. }
   rewrite <- (H_shift mp kids ts dl Hk Hts Hrange).
   destruct (each_trak kids _) as [kl| | | |]; cbn [rbind is_ok]; split; try reflexivity; try discriminate.
   intros o H. injection H as <-. cbn [o_metadata]. split; discriminate.
@@ -453,7 +447,7 @@ Hypothesis Hcum : forall t, cumulative_mdat_box_size cfg = Some t -> t <= U32MAX
 Hypothesis H_moov : forall p, blen p < 4294967296 ->
   is_ok (moov_check p) = match co_regions p with Some _ => true | None => false end.
 Hypothesis H_put : forall p kids, moov_check p = Ok kids -> put_nodes kids = p.
-Hypothesis H_shift : forall p kids ts d, moov_check p = Ok kids -> co_tables p = Some ts -> (- 2 ^ 31 < d < 2 ^ 31)%Z ->
+Hypothesis H_shift : forall p kids ts d, moov_check p = Ok kids -> co_tables p = Some ts -> (- 2 ^ 31 <= d < 2 ^ 31)%Z ->
   is_ok (each_trak kids (shift_table (shift_entry 32 d) (shift_entry 64 d))) =
   negb (existsb (fun t : N * list N => existsb (fun e => match shift (fst t) d e with None => true | Some _ => false end) (snd t)) ts).
 
